@@ -1100,6 +1100,8 @@ impl GraphDatabase {
             .send_async(Box::new(move |conn| {
                 let mutation_query =
                     MutationQuery::execute(&mut parameters, mutation.clone(), conn);
+                #[cfg(feature = "verif")]
+                crate::verif_hooks::gate("reader.after_execute");
 
                 match mutation_query {
                     Ok(muta) => {
